@@ -442,3 +442,509 @@ def run(ctx) -> None:  # noqa: F811
               "forward and inverse transform use the same axes", f"fftn and ifftn are given different axes {sorted(seen_axes)}",
               key_detail="same-axes")
     _inner_run_c15(ctx)
+
+
+# ---- added after the mutation sweep (sweepH-b): which axes the sizes / transforms / phase ramps refer to
+_inner_run_c15_sweep = run
+
+_COMPLEX_DTYPES = {"complex", "complex64", "complex128", "complex256", "cfloat", "cdouble", "csingle"}
+_REAL_DTYPES = {"float", "float16", "float32", "float64", "float128", "double", "single", "half", "int", "int32", "int64"}
+
+
+def _strip_seq(e: ast.AST) -> ast.AST:
+    while isinstance(e, ast.Call) and call_name(e) in ("tuple", "list") and len(e.args) == 1 and not e.keywords:
+        e = e.args[0]
+    return e
+
+
+def _resolve_name(df: DataFlow, at: int, e: ast.AST, hops: int = 6):
+    """Follow single strong plain assignments of a Name; returns (expr, node)."""
+    while isinstance(e, ast.Name) and hops:
+        d = df.single_def(at, e.id)
+        if d is None or d.kind != "assign" or d.value is None:
+            break
+        stn = df.cfg.nodes[d.node].ast
+        if not (isinstance(stn, ast.Assign) and len(stn.targets) == 1 and isinstance(stn.targets[0], ast.Name)):
+            break
+        e, at, hops = d.value, d.node, hops - 1
+    return e, at
+
+
+def _shape_slice(df: DataFlow, at: int, e: ast.AST, what: str):
+    """`X.shape[lo:hi]` -> (X text, lo Poly|None, hi Poly|None, N Poly) with names inlined at `at`; None if `e` is not
+    a slice of a shape."""
+    from ..terms import FlowNormalizer
+    e = _strip_seq(e)
+    if not (isinstance(e, ast.Subscript) and isinstance(e.slice, ast.Slice) and isinstance(e.value, ast.Attribute)
+            and e.value.attr == "shape" and dotted(e.value.value)):
+        return None
+    if e.slice.step is not None:
+        raise AnalysisError(f"{what}: strided slice of a shape `{norm_text(e)[:50]}`")
+    nz = FlowNormalizer(df, at)
+    x = dotted(e.value.value)
+    N = nz.norm(ast.parse(f"len({x}.shape)", mode="eval").body)
+    lo = nz.norm(e.slice.lower) if e.slice.lower is not None else None
+    hi = nz.norm(e.slice.upper) if e.slice.upper is not None else None
+    alt = {a_: N for a_ in nz.norm(ast.parse(f"{x}.ndim", mode="eval").body).atoms()}
+    sub = lambda p: p if p is None else p.subst(alt)  # noqa: E731
+    return x, sub(lo), sub(hi), N
+
+
+def _decidable(p, atoms: set[str]) -> bool:
+    return p is None or (p.atoms() <= atoms and bool(p.atoms()))
+
+
+def _guards_of(func: ast.FunctionDef, target: ast.AST) -> list[tuple[ast.If, bool]]:
+    """Enclosing (If, in-body?) pairs of `target`, outermost first."""
+    out: list[tuple[ast.If, bool]] = []
+
+    def rec(stmts, acc) -> bool:
+        for st in stmts:
+            if isinstance(st, ast.If):
+                if rec(st.body, acc + [(st, True)]) or rec(st.orelse, acc + [(st, False)]):
+                    return True
+            elif isinstance(st, (ast.For, ast.While, ast.With, ast.Try)):
+                blocks = [getattr(st, a, []) for a in ("body", "orelse", "finalbody")]
+                blocks += [h.body for h in getattr(st, "handlers", [])]
+                if any(rec(b, acc) for b in blocks):
+                    return True
+            elif any(n is target for n in ast.walk(st)):
+                out.extend(acc)
+                return True
+        return False
+
+    if not rec(func.body, []):
+        raise AnalysisError(f"{func.name}: `{norm_text(target)[:40]}` not found in the statement tree")
+    return out
+
+
+_CMP = {ast.Eq: lambda a, b: a == b, ast.NotEq: lambda a, b: a != b, ast.Lt: lambda a, b: a < b,
+        ast.LtE: lambda a, b: a <= b, ast.Gt: lambda a, b: a > b, ast.GtE: lambda a, b: a >= b}
+
+
+def _sizes(ctx, repo) -> None:
+    """R-SIZEAXES"""
+    from ..terms import FlowNormalizer
+    f = repo.function(FFT, "fft_interpolate")
+    arr, ns = f.positional_params[:2]
+    df = DataFlow(f.node)
+    body = _select(f.body, "normalization", "values")
+    ctx.require(body is not None, f"{f.qualname}: no dispatch on `normalization` found")
+    rets = [n for n in walk_no_nested(f.node) if isinstance(n, ast.Return) and n.value is not None]
+    ctx.require(len(rets) == 1 and isinstance(rets[0].value, ast.Name), f"{f.qualname}: expected `return <array>`")
+    res = rets[0].value.id
+    ups = [n for st in body for n in ast.walk(st) if isinstance(n, (ast.Assign, ast.AugAssign))
+           and dotted(n.targets[0] if isinstance(n, ast.Assign) else n.target) == res]
+    if len(ups) != 1:
+        return  # R-TERM reports a missing / ambiguous rescaling
+    st = ups[0]
+    # every prod(...) feeding the factor, through single definitions of the names it mentions
+    prods: list[tuple[ast.Call, int]] = []
+    seen: set[tuple[int, str]] = set()
+    work = [(st.value, df.cfg.node_of(st).idx)]
+    while work:
+        e, at = work.pop()
+        for n in ast.walk(e):
+            if isinstance(n, ast.Call) and last_attr(n) == "prod" and len(n.args) == 1:
+                prods.append((n, at))
+            elif isinstance(n, ast.Name) and (at, n.id) not in seen and n.id != res:
+                seen.add((at, n.id))
+                d = df.single_def(at, n.id)
+                if d is not None and d.kind == "assign" and d.value is not None:
+                    work.append((d.value, d.node))
+    ctx.require(len(prods) >= 2, f"{f.qualname}: the sizes of the 'values' normalisation are not prod(...) terms")
+    for c, at in prods:
+        a, at2 = _resolve_name(df, at, _strip_seq(c.args[0]))
+        a = _strip_seq(a)
+        which = "old" if not any(d.kind != "param" for d in df.reaching(at2, arr) if d.strong) else "new"
+        construct = f"{f.qualname}:{which} size axes"
+        if isinstance(a, ast.Name) and a.id == ns:
+            ctx.require(all(d.kind == "param" for d in df.reaching(at2, ns)), f"{f.qualname}: `{ns}` is reassigned")
+            ctx.ok("R-SIZEAXES", construct, f.loc(c), f"prod({ns}): the requested trailing shape")
+            continue
+        r = _shape_slice(df, at2, a, f.qualname)
+        ctx.require(r is not None, f"{f.qualname}: cannot read the size `{norm_text(c)[:60]}`")
+        x, lo, hi, N = r
+        ctx.require(x == arr, f"{f.qualname}: size `{norm_text(c)[:60]}` is not taken from `{arr}`")
+        M = FlowNormalizer(df, at2).norm(ast.parse(f"len({ns})", mode="eval").body)
+        ctx.require(all(d.kind == "param" for d in df.reaching(at2, ns)), f"{f.qualname}: `{ns}` is reassigned")
+        known = N.atoms() | M.atoms()
+        lo = Poly() if lo is None else lo
+        ctx.require((lo.is_zero() or _decidable(lo, known)) and _decidable(hi, known),
+                    f"{f.qualname}: cannot relate the slice of `{norm_text(a)[:50]}` to len({ns}) / len({arr}.shape)")
+        good = (lo == -M or lo == N - M) and (hi is None or hi == N)
+        ctx.check(good, "R-SIZEAXES", construct, f.loc(c),
+                  f"prod over {arr}.shape[{_k(lo)}:{'' if hi is None else _k(hi)}]: the trailing len({ns}) axes",
+                  f"the {which} size is the product over {arr}.shape[{_k(lo)}:{'' if hi is None else _k(hi)}], not over the "
+                  f"trailing len({ns}) axes that are resampled: the 'values' factor is not new size / old size of the "
+                  "resampled axes and the mean is not preserved", key_detail="axes")
+
+    # fft_crop: a short new_shape is completed by the *leading* axes of the array
+    g = repo.function(FFT, "fft_crop")
+    garr, gns = g.positional_params[:2]
+    from ..model import bind_args
+    for c in [c for c in walk_no_nested(f.node) if isinstance(c, ast.Call) and call_name(c) == "fft_crop"]:
+        b = bind_args(c, g)
+        at = df.cfg.node_of(_stmt_of(f.node, c)).idx
+        ctx.require(garr in b and gns in b, f"{f.qualname}: cannot bind the arguments of `{norm_text(c)[:50]}`")
+        p_ns, p_arr = df.backward_slice(at, b[gns]).params, df.backward_slice(at, b[garr]).params
+        good = ns in p_ns and arr not in p_ns and arr in p_arr
+        ctx.check(good, "R-SIZEAXES", f"{f.qualname}:fft_crop arguments", f.loc(c),
+                  f"fft_crop({garr}=<transformed array>, {gns}={ns})",
+                  f"`{norm_text(c)[:60]}` does not hand fft_crop the transformed array and `{ns}` in that order",
+                  key_detail="crop-args")
+    dg = DataFlow(g.node)
+    comp = [s for s in walk_no_nested(g.node) if isinstance(s, ast.Assign) and dotted(s.targets[0]) == gns]
+    ctx.require(len(comp) == 1 and isinstance(comp[0].value, ast.BinOp) and isinstance(comp[0].value.op, ast.Add),
+                f"{g.qualname}: completion of a short new_shape by the batch axes not found")
+    at = dg.cfg.node_of(comp[0]).idx
+    left, right = _strip_seq(comp[0].value.left), _strip_seq(comp[0].value.right)
+    ctx.require(isinstance(right, ast.Name) and right.id == gns, f"{g.qualname}: `{gns}` is not completed on the left")
+    r = _shape_slice(dg, at, left, g.qualname)
+    ctx.require(r is not None and r[0] == garr, f"{g.qualname}: batch prefix `{norm_text(left)[:50]}` is not a slice of "
+                f"{garr}.shape")
+    _, lo, hi, N = r
+    M = FlowNormalizer(dg, at).norm(ast.parse(f"len({gns})", mode="eval").body)
+    known = N.atoms() | M.atoms()
+    ctx.require(hi is not None and _decidable(hi, known) and (lo is None or lo.is_zero()),
+                f"{g.qualname}: cannot relate the batch prefix `{norm_text(left)[:50]}` to len({gns})")
+    ctx.check(hi == -M or hi == N - M, "R-SIZEAXES", f"{g.qualname}:batch prefix", g.loc(comp[0]),
+              f"new_shape is completed by {garr}.shape[:{_k(hi)}]: all axes but the trailing len({gns})",
+              f"a short new_shape is completed by {garr}.shape[:{_k(hi)}] instead of the leading "
+              f"len({garr}.shape) - len({gns}) axes: the cropped shape has the wrong rank / batch extents",
+              key_detail="prefix")
+
+
+def _covers(ctx, repo) -> None:
+    """R-COVERS"""
+    f = repo.function(FFT, "fft_interpolate")
+    ns = f.positional_params[1]
+    nz = Normalizer()
+    M = nz.norm(ast.parse(f"len({ns})", mode="eval").body)
+    two = [c for c in walk_no_nested(f.node) if isinstance(c, ast.Call) and call_name(c) in ("fft2", "ifft2")]
+    nd = [c for c in walk_no_nested(f.node) if isinstance(c, ast.Call) and call_name(c) in ("fftn", "ifftn")]
+    if not two:
+        ctx.info("R-COVERS", f"{f.qualname}:2-d arm", f.where, "no fft2/ifft2 arm")
+        return
+    if not nd:
+        ctx.info("R-COVERS", f"{f.qualname}:2-d arm", f.where, "only a 2-d transform: other ranks are not claimed")
+        return
+    for c in two:
+        allowed = set(range(1, 7))
+        for i_, in_body in _guards_of(f.node, c):
+            t = i_.test
+            if ns not in {n.id for n in ast.walk(t) if isinstance(n, ast.Name)}:
+                continue
+            ok_form = isinstance(t, ast.Compare) and len(t.ops) == 1 and type(t.ops[0]) in _CMP
+            if ok_form:
+                l_, r_ = nz.norm(t.left), nz.norm(t.comparators[0])
+                if l_ == M and r_.const_value() is not None and r_.const_value().denominator == 1:
+                    cval, fn = int(r_.const_value()), _CMP[type(t.ops[0])]
+                    sat = {m for m in range(1, 7) if fn(m, cval)}
+                elif r_ == M and l_.const_value() is not None and l_.const_value().denominator == 1:
+                    cval, fn = int(l_.const_value()), _CMP[type(t.ops[0])]
+                    sat = {m for m in range(1, 7) if fn(cval, m)}
+                else:
+                    ok_form = False
+            if not ok_form:
+                raise AnalysisError(f"{f.qualname}: cannot read the guard `{norm_text(t)[:60]}` of the {call_name(c)} arm")
+            allowed &= sat if in_body else (set(range(1, 7)) - sat)
+        ctx.check(allowed <= {1, 2}, "R-COVERS", f"{f.qualname}:{call_name(c)} arm", f.loc(c),
+                  f"{call_name(c)} (last two axes) runs only for len({ns}) in {sorted(allowed)}",
+                  f"{call_name(c)} transforms the last two axes but runs for len({ns}) in {sorted(allowed)}: fft_crop "
+                  f"crops the trailing len({ns}) axes, so for len({ns}) > 2 an axis is cropped in real space",
+                  key_detail="covers")
+
+
+def _complex_cast(ctx, repo) -> None:
+    """R-COMPLEXCAST"""
+    f = repo.function(FFT, "fft_interpolate")
+    arr = f.positional_params[0]
+    casts = [c for c in walk_no_nested(f.node) if isinstance(c, ast.Call) and last_attr(c) == "astype"
+             and isinstance(c.func, ast.Attribute) and dotted(c.func.value) == arr]
+    if not casts:
+        ctx.info("R-COMPLEXCAST", f"{f.qualname}:cast", f.where, "the array is not cast before the transform")
+        return
+    for c in casts:
+        ctx.require(len(c.args) >= 1, f"{f.qualname}: astype without a dtype")
+        a = c.args[0]
+        verdict = None
+        if isinstance(a, ast.Call) and call_name(a) == "get_dtype":
+            v = next((k.value for k in a.keywords if k.arg == "complex"), a.args[0] if a.args else None)
+            if isinstance(v, ast.Constant) and isinstance(v.value, bool):
+                verdict = v.value
+        else:
+            name = (dotted(a) or "").split(".")[-1] if not isinstance(a, ast.Constant) else str(a.value)
+            verdict = True if name in _COMPLEX_DTYPES else False if name in _REAL_DTYPES else None
+        ctx.require(verdict is not None, f"{f.qualname}: cannot read the dtype of `{norm_text(c)[:60]}`")
+        ctx.check(verdict, "R-COMPLEXCAST", f"{f.qualname}:cast", f.loc(c), "the array is cast to a complex dtype",
+                  f"`{norm_text(c)[:70]}` casts the array to a real dtype before the transform: the imaginary part of a "
+                  "complex array (a wave function) is discarded, so up- then down-sampling does not return it",
+                  key_detail="cast")
+
+
+def _kernel_axes(ctx, repo) -> None:
+    """R-ALLAXES and R-AXISPLACE"""
+    from ..terms import FlowNormalizer
+    f = repo.function(FFT, "fft_shift_kernel")
+    pos, shape = f.positional_params[:2]
+    df = DataFlow(f.node)
+    ce = [c for c in walk_no_nested(f.node) if isinstance(c, ast.Call) and call_name(c) == "complex_exponential"]
+    ctx.require(len(ce) == 1, f"{f.qualname}: expected one complex_exponential call")
+    st = _stmt_of(f.node, ce[0])
+    ctx.require(isinstance(st, ast.Assign) and isinstance(st.targets[0], ast.Subscript)
+                and isinstance(st.targets[0].value, ast.Name) and isinstance(st.targets[0].slice, ast.Name),
+                f"{f.qualname}: the axis kernel is not stored as k[i]")
+    K, i = st.targets[0].value.id, st.targets[0].slice.id
+    cnode = df.cfg.node_of(st)
+    ctx.require(len(cnode.loops) == 1, f"{f.qualname}: the axis kernel is not built in one loop over the axes")
+    build = df.cfg.nodes[cnode.loops[0]].ast
+    ctx.require(isinstance(build, ast.For) and dotted(build.target) == i and isinstance(build.iter, ast.Call)
+                and call_name(build.iter) == "range" and len(build.iter.args) == 1,
+                f"{f.qualname}: the axis loop is not `for i in range(<dims>)`")
+    hnode = cnode.loops[0]
+    DIMS = FlowNormalizer(df, hnode).norm(build.iter.args[0])
+
+    # ---- number of axes: the last axis of positions holds one component per shifted axis
+    e, _ = _resolve_name(df, hnode, build.iter.args[0])
+    verdict = None
+    if isinstance(e, ast.Call) and call_name(e) == "len" and len(e.args) == 1 and dotted(e.args[0]) in (shape, K):
+        verdict = True
+    elif isinstance(e, ast.Subscript) and dotted(e.value) == f"{pos}.shape" and isinstance(e.slice, (ast.Constant, ast.UnaryOp)):
+        sv = e.slice.value if isinstance(e.slice, ast.Constant) else (
+            -e.slice.operand.value if isinstance(e.slice.op, ast.USub) and isinstance(e.slice.operand, ast.Constant) else None)
+        verdict = None if not isinstance(sv, int) else sv == -1
+    ctx.require(verdict is not None, f"{f.qualname}: cannot read the number of shifted axes `{norm_text(e)[:50]}`")
+    ctx.check(verdict, "R-AXISPLACE", f"{f.qualname}:number of axes", f.loc(build),
+              f"one phase ramp per entry of `{shape}` / per component in the last axis of `{pos}`",
+              f"the number of phase ramps is `{norm_text(e)[:50]}`; the components of a position are along the LAST axis of "
+              f"`{pos}` (one per entry of `{shape}`), the other axes enumerate positions", key_detail="dims")
+
+    # ---- R-ALLAXES: the returned kernel is the product of every per-axis ramp, each exactly once
+    rets = [n for n in walk_no_nested(f.node) if isinstance(n, ast.Return) and n.value is not None]
+    ctx.require(len(rets) == 1 and isinstance(rets[0].value, ast.Name), f"{f.qualname}: expected `return <kernel>`")
+    acc_e, _ = _resolve_name(df, df.cfg.node_of(rets[0]).idx, rets[0].value)
+    ctx.require(isinstance(acc_e, ast.Name), f"{f.qualname}: the returned kernel is not an accumulated variable")
+    acc = acc_e.id
+    defs = [d for d in df.defs if d.var == acc and d.kind != "param"]
+    inits = [d for d in defs if not df.cfg.nodes[d.node].loops]
+    upds = [d for d in defs if df.cfg.nodes[d.node].loops]
+    ctx.require(len(inits) == 1 and inits[0].kind == "assign" and len(upds) == 1,
+                f"{f.qualname}: the kernel is not accumulated as `acc = ...; for j in range(..): acc = acc * k[j]`")
+    nz0 = Normalizer()
+    p0 = nz0.norm(inits[0].value)
+    ctx.require(len(p0.terms) == 1 and next(iter(p0.terms.values())) == 1, f"{f.qualname}: initial kernel `{_k(p0)[:40]}` "
+                "is not a product of axis kernels")
+    have: list[int] = []
+    known_atoms = {next(iter(nz0.norm(ast.parse(f"{K}[{c_}]", mode="eval").body).atoms())): c_ for c_ in range(16)}
+    for a, ex in next(iter(p0.terms)):
+        ctx.require(a in known_atoms and ex == 1, f"{f.qualname}: factor `{a}` of the initial kernel is not {K}[<int>]")
+        have.append(known_atoms[a])
+    un = df.cfg.nodes[upds[0].node]
+    ust = un.ast
+    ctx.require(len(un.loops) == 1, f"{f.qualname}: nested accumulation loop")
+    loop = df.cfg.nodes[un.loops[0]].ast
+    ctx.require(isinstance(loop, ast.For) and isinstance(loop.target, ast.Name) and isinstance(loop.iter, ast.Call)
+                and call_name(loop.iter) == "range" and 1 <= len(loop.iter.args) <= 2,
+                f"{f.qualname}: accumulation loop is not `for j in range(lo, hi)`")
+    j = loop.target.id
+    nzl = FlowNormalizer(df, un.loops[0])
+    lo = nzl.norm(loop.iter.args[0]).const_value() if len(loop.iter.args) == 2 else 0
+    hi = nzl.norm(loop.iter.args[-1])
+    ctx.require(lo is not None and lo.denominator == 1 if not isinstance(lo, int) else True,
+                f"{f.qualname}: accumulation loop does not start at a constant")
+    lo = int(lo)
+    nzu = Normalizer()
+    if isinstance(ust, ast.AugAssign):
+        ctx.require(isinstance(ust.op, (ast.Mult, ast.Div)), f"{f.qualname}: accumulation is not a product")
+        F = nzu.norm(ust.value)
+        if isinstance(ust.op, ast.Div):
+            F = F.inverse()
+    else:
+        ctx.require(isinstance(ust, ast.Assign), f"{f.qualname}: accumulation statement not understood")
+        F = nzu.norm(ust.value) * nzu.norm(ast.Name(id=acc, ctx=ast.Load())).inverse()
+    want = nzu.norm(ast.parse(f"{K}[{j}]", mode="eval").body)
+    ctx.require(F == want or F == want.inverse(), f"{f.qualname}: accumulation factor `{_k(F)[:50]}` is not {K}[{j}]")
+    construct = f"{f.qualname}:product of the axis kernels"
+    if F == want.inverse():
+        ctx.violation("R-ALLAXES", construct, f.loc(ust), f"`{norm_text(ust)[:70]}` divides by the phase ramp of an axis: "
+                      "that axis is shifted by -x instead of +x, so a whole-pixel shift is not the periodic roll",
+                      key_detail="product")
+    else:
+        ctx.require(hi == DIMS, f"{f.qualname}: accumulation loop ends at `{_k(hi)}`, the axis loop at `{_k(DIMS)}`")
+        good = sorted(have) == list(range(lo))
+        ctx.check(good, "R-ALLAXES", construct, f.loc(ust),
+                  f"{K}{sorted(have)} times {K}[j] for j in range({lo}, dims): every axis once",
+                  f"the kernel starts from the ramps of axes {sorted(have)} and multiplies those of range({lo}, dims): "
+                  f"axes {sorted(set(range(lo)) - set(have))} are missing / {sorted(x for x in set(have) if x >= lo or have.count(x) > 1)} "
+                  "enter twice, so the shift along an axis is dropped or doubled", key_detail="product")
+
+    # ---- R-AXISPLACE: where the frequency axis and the position axes go
+    exps: list[tuple[ast.Call, int]] = []
+    seen: set[tuple[int, str]] = set()
+    work = [(ce[0].args[0], cnode.idx)]
+    while work:
+        e, at = work.pop()
+        for n in ast.walk(e):
+            if isinstance(n, ast.Call) and last_attr(n) == "expand_dims":
+                exps.append((n, at))
+            elif isinstance(n, ast.Name) and (at, n.id) not in seen:
+                seen.add((at, n.id))
+                d = df.single_def(at, n.id)
+                if d is not None and d.kind == "assign" and d.value is not None and d.node in df.cfg.loop_body_nodes(hnode):
+                    work.append((d.value, d.node))
+
+    def root(e):
+        while isinstance(e, ast.Subscript):
+            e = e.value
+        return e.id if isinstance(e, ast.Name) else None
+
+    fr = [(c, at) for c, at in exps if c.args and root(c.args[0]) == K]
+    ps = [(c, at) for c, at in exps if c.args and root(c.args[0]) == pos]
+    ctx.require(len(fr) == 1 and len(ps) == 1 and len(exps) == 2,
+                f"{f.qualname}: expected one expand_dims of the frequencies and one of the positions")
+
+    def axes_arg(c):
+        a = c.args[1] if len(c.args) > 1 else next((k.value for k in c.keywords if k.arg == "axis"), None)
+        ctx.require(a is not None, f"{f.qualname}: expand_dims without axes")
+        return a
+
+    def segments(e, at):
+        """-> (list of (lo, hi) Poly pairs, removed index Polys)"""
+        e = _strip_seq(e)
+        nz = FlowNormalizer(df, at)
+        if isinstance(e, ast.Call) and call_name(e) == "range" and 1 <= len(e.args) <= 2:
+            return [(nz.norm(e.args[0]) if len(e.args) == 2 else Poly(), nz.norm(e.args[-1]))], []
+        if isinstance(e, ast.BinOp) and isinstance(e.op, ast.Add):
+            l, lr = segments(e.left, at)
+            r, rr = segments(e.right, at)
+            ctx.require(not lr and not rr, f"{f.qualname}: deletion inside a concatenation")
+            return l + r, []
+        if isinstance(e, ast.Name):
+            rd = df.reaching(at, e.id)
+            strong = [d for d in rd if d.strong]
+            weak = [d for d in rd if not d.strong]
+            ctx.require(len(strong) == 1 and strong[0].kind == "assign" and strong[0].value is not None,
+                        f"{f.qualname}: axes list `{e.id}` has no single definition")
+            segs, rem = segments(strong[0].value, strong[0].node)
+            for d in weak:
+                dst = df.cfg.nodes[d.node].ast
+                ctx.require(isinstance(dst, ast.Delete) and len(dst.targets) == 1 and isinstance(dst.targets[0], ast.Subscript)
+                            and dotted(dst.targets[0].value) == e.id and not isinstance(dst.targets[0].slice, ast.Slice),
+                            f"{f.qualname}: axes list `{e.id}` is modified by `{norm_text(dst)[:50]}`")
+                rem = rem + [FlowNormalizer(df, d.node).norm(dst.targets[0].slice)]
+            return segs, rem
+        raise AnalysisError(f"{f.qualname}: cannot read the axes `{norm_text(e)[:60]}`")
+
+    def contiguous(segs):
+        lo, hi = segs[0]
+        for a, b in segs[1:]:
+            if a != hi:
+                return None
+            hi = b
+        return lo, hi
+
+    nzc = FlowNormalizer(df, cnode.idx)
+    NBs = [nzc.norm(ast.parse(t.format(p=pos), mode="eval").body) for t in ("len({p}.shape) - 1", "{p}.ndim - 1")]
+    I = Poly.atom(i)
+    # frequencies
+    c, at = fr[0]
+    ctx.require(isinstance(c.args[0], ast.Subscript) and dotted(c.args[0].slice) == i and dotted(c.args[0].value) == K,
+                f"{f.qualname}: the expanded frequency vector is not {K}[{i}]")
+    segs, rem = segments(axes_arg(c), at)
+    span = contiguous(segs)
+    good = span is not None and span[0].is_zero() and len(rem) == 1 and any(
+        span[1] == NB + DIMS and span[0] + rem[0] == NB + I for NB in NBs)
+    desc = "+".join(f"range({_k(a)}, {_k(b)})" for a, b in segs) + "".join(f" without element #{_k(r)}" for r in rem)
+    ctx.check(good, "R-AXISPLACE", f"{f.qualname}:frequency axis", f.loc(c),
+              f"frequencies of axis i lie along axis (len({pos}.shape) - 1) + i of the kernel",
+              f"the frequencies of axis i are expanded over axes {desc}: their own axis is not (number of leading axes of "
+              f"`{pos}`) + i in a kernel of len({pos}.shape) - 1 + dims axes, so the ramp of axis i varies along the wrong "
+              "axis of the array for batched positions", key_detail="freq")
+    # positions
+    c, at = ps[0]
+    a0 = c.args[0]
+    ctx.require(isinstance(a0, ast.Subscript) and dotted(a0.value) == pos and isinstance(a0.slice, ast.Tuple)
+                and len(a0.slice.elts) == 2 and isinstance(a0.slice.elts[0], ast.Constant)
+                and a0.slice.elts[0].value is Ellipsis and not isinstance(a0.slice.elts[1], ast.Slice),
+                f"{f.qualname}: the expanded positions are not one component {pos}[..., <i>]")  # which one: R-TERM phase
+    segs, rem = segments(axes_arg(c), at)
+    span = contiguous(segs)
+    good = span is not None and not rem and any(span[0] == NB and span[1] == NB + DIMS for NB in NBs)
+    desc = "+".join(f"range({_k(a)}, {_k(b)})" for a, b in segs)
+    ctx.check(good, "R-AXISPLACE", f"{f.qualname}:position axes", f.loc(c),
+              f"component i of the positions keeps its leading axes and gets the dims array axes appended",
+              f"component i of the positions is expanded over axes {desc} instead of the dims axes following its own "
+              f"len({pos}.shape) - 1 leading axes: positions and frequencies no longer broadcast to "
+              "(positions..., array axes...)", key_detail="pos")
+
+
+def _extent(ctx, repo) -> None:
+    """R-EXTENT"""
+    from ..terms import FlowNormalizer
+    f = repo.method("abtem.waves", "Waves", "downsample")
+    df = DataFlow(f.node)
+    calls = [c for c in walk_no_nested(f.node) if isinstance(c, ast.Call) and call_name(c) == "fft_interpolate"]
+    ctx.require(calls, f"{f.qualname}: eager fft_interpolate call not found")
+    G = next((k.value for k in calls[0].keywords if k.arg == "new_shape"), calls[0].args[1] if len(calls[0].args) > 1 else None)
+    ctx.require(G is not None and dotted(G), f"{f.qualname}: new_shape of fft_interpolate not found")
+    stores = [s for s in walk_no_nested(f.node) if isinstance(s, ast.Assign) and isinstance(s.targets[0], ast.Subscript)
+              and isinstance(s.targets[0].slice, ast.Constant) and s.targets[0].slice.value == "sampling"]
+    ctx.require(len(stores) == 1, f"{f.qualname}: the sampling of the downsampled waves is not stored as [...]['sampling']")
+    s = stores[0]
+    at = df.cfg.node_of(s).idx
+    v, at = _resolve_name(df, at, s.value)
+    ctx.require(isinstance(v, (ast.Tuple, ast.List)) and len(v.elts) == 2, f"{f.qualname}: new sampling is not a pair")
+    nz = FlowNormalizer(df, at)
+    bases = []
+    for jx, e in enumerate(v.elts):
+        g = nz.norm(ast.parse(f"{dotted(G)}[{jx}]", mode="eval").body)
+        q = nz.norm(e) * g
+        construct = f"{f.qualname}:new sampling[{jx}]"
+        m_ = None
+        if len(q.terms) == 1:
+            (mono, coef), = q.terms.items()
+            if coef == 1 and len(mono) == 1 and mono[0][1] == 1:
+                m_ = re.fullmatch(r"(.+)\[(-?\d+)\]", mono[0][0])
+        if m_ is None:
+            ctx.require(all(re.fullmatch(r".+\[-?\d+\]", a_) for a_ in q.atoms()) and q.atoms(),
+                        f"{f.qualname}: cannot read the new sampling component `{norm_text(e)[:60]}`")
+            ctx.violation("R-EXTENT", construct, f.loc(e), f"sampling[{jx}] * new gpts[{jx}] = {_k(q)[:80]} is not one "
+                          f"component of the extent: the downsampled wave does not span the extent of the original",
+                          key_detail="extent")
+            continue
+        bases.append(m_.group(1))
+        ctx.check(int(m_.group(2)) == jx, "R-EXTENT", construct, f.loc(e),
+                  f"sampling[{jx}] * new gpts[{jx}] == {m_.group(1)}[{jx}]",
+                  f"sampling[{jx}] * new gpts[{jx}] == {m_.group(0)}: the extent component of the other axis", key_detail="extent")
+    if len(bases) == 2:
+        ctx.check(bases[0] == bases[1], "R-EXTENT", f"{f.qualname}:new sampling same extent", f.loc(s),
+                  "both components divide the same extent pair", f"the components divide different pairs {bases}",
+                  key_detail="same")
+
+
+def run(ctx) -> None:  # noqa: F811
+    ctx.rule("R-SIZEAXES", "fft_interpolate: every size entering the 'values' factor is prod(new_shape) or the product "
+             "over array.shape[-len(new_shape):] (equivalently [len(array.shape) - len(new_shape):]) — the axes that "
+             "are resampled; fft_crop completes a short new_shape with the leading len(array.shape) - len(new_shape) "
+             "axes.  A product over other axes makes the factor differ from new size / old size, so the mean is not "
+             "preserved")
+    ctx.rule("R-COVERS", "fft_interpolate: the fft2/ifft2 arm (last two axes) is reached only when len(new_shape) <= 2; "
+             "fft_crop crops the trailing len(new_shape) axes, all of which must have been transformed")
+    ctx.rule("R-COMPLEXCAST", "fft_interpolate: a cast of the array before the transform is to a complex dtype (a real "
+             "dtype drops the imaginary part of a wave function)")
+    ctx.rule("R-ALLAXES", "fft_shift_kernel: the returned kernel is the product of the phase ramps of ALL axes, each "
+             "exactly once and none inverted (init factors k[c] plus the accumulation loop range cover range(dims) "
+             "without overlap): a missing / doubled / inverted factor shifts an axis by 0, 2x or -x")
+    ctx.rule("R-AXISPLACE", "fft_shift_kernel: with nb = len(positions.shape) - 1 leading position axes, the frequency "
+             "vector of axis i is expanded to nb + dims axes with its own axis at nb + i, component i of the positions "
+             "gets the dims axes nb..nb+dims-1 appended, and dims is the length of the last axis of positions / of "
+             "shape (symbolic evaluation of the range / concatenation / del expressions that build the axes)")
+    ctx.rule("R-EXTENT", "Waves.downsample: new sampling[i] * new gpts[i] is component i of one extent pair — the "
+             "downsampled wave spans the same extent, i.e. describes the same band-limited function")
+    _sizes(ctx, ctx.repo)
+    _covers(ctx, ctx.repo)
+    _complex_cast(ctx, ctx.repo)
+    _kernel_axes(ctx, ctx.repo)
+    _extent(ctx, ctx.repo)
+    _inner_run_c15_sweep(ctx)
